@@ -585,7 +585,7 @@ fn check_representative(rep: &mut Report, drv: &mut Driver, name: &str, prog: &P
 /// One class representative of the differential run (`c01/classcorpus.rs`): the Lean Spec, the
 /// harness interpreter (third voice) and the JIT on every argument tuple of the representative.
 fn check_class_rep(rep: &mut Report, drv: &mut Driver, r: &classcorpus::Rep) {
-    let (src, sx) = (source(&r.prog), sexp(&r.prog));
+    let (src, sx) = (r.source(), sexp(&r.prog));
     let arity = r.prog.main().params.len();
     let c = Case { src: &src, sexp: &sx, ty: r.ty, arity, ret: r.ret };
     let ident = json!({"class_representative": r.name, "src": src, "sexp": sx, "ty": r.ty.name(), "arity": arity, "ret": r.ret.name()});
@@ -760,15 +760,15 @@ fn main() {
             let ntys = generator::all_tys().len() as u64;
             let extra = if thorough { "1500" } else { "60" };
             // class representatives of the differential run first (seed-independent), in workers
-            for family in ["match", "match-order", "float"] {
+            for family in ["match", "match-order", "float", "char"] {
                 let (ended, out) = run_worker_keep_stdout(&["classcorpus", family], Duration::from_secs(300));
                 if let Some(v) = Report::parse_stdout(&out) { rep.merge_json(&v); }
                 if !matches!(ended, Ended::Exit(0, _)) {
                     let last = out.lines().rev().find(|l| l.starts_with("START ")).unwrap_or("").to_string();
                     let name = last.strip_prefix("START classcorpus ").unwrap_or("").to_string();
-                    let reps = match family { "match" => classcorpus::match_corpus(), "match-order" => classcorpus::order_corpus(), _ => classcorpus::float_corpus() };
+                    let reps = match family { "match" => classcorpus::match_corpus(), "match-order" => classcorpus::order_corpus(), "char" => classcorpus::char_corpus(), _ => classcorpus::float_corpus() };
                     let input = match reps.iter().find(|r| r.name == name) {
-                        Some(r) => json!({"src": source(&r.prog), "sexp": sexp(&r.prog), "ty": r.ty.name(), "arity": r.prog.main().params.len(),
+                        Some(r) => json!({"src": r.source(), "sexp": sexp(&r.prog), "ty": r.ty.name(), "arity": r.prog.main().params.len(),
                                           "ret": r.ret.name(), "args": r.args[0], "class_representative": r.name, "ended": format!("{ended:?}"),
                                           "note": "the process died or hung on one of the representative's argument tuples; args is the first tuple"}),
                         None => json!({"ended": format!("{ended:?}"), "last": last}),
@@ -864,7 +864,7 @@ fn main() {
                     }
                 }
                 "classcorpus" => {
-                    let reps = match args[3].as_str() { "match" => classcorpus::match_corpus(), "match-order" => classcorpus::order_corpus(), _ => classcorpus::float_corpus() };
+                    let reps = match args[3].as_str() { "match" => classcorpus::match_corpus(), "match-order" => classcorpus::order_corpus(), "char" => classcorpus::char_corpus(), _ => classcorpus::float_corpus() };
                     for r in &reps {
                         println!("START classcorpus {}", r.name);
                         std::io::stdout().flush().ok();
